@@ -15,6 +15,9 @@
      ADeliver s ok      the delivery goroutine makes one stream.Send attempt for the head of the
                         deferred queue (ok = the send succeeded); after the stream context is cancelled
                         every send fails and the head is dropped silently
+     AHold s            the delivery goroutine has called stream.Send for the head of the queue and the
+                        plugin has not consumed it yet (observable: the send is parked in the stream);
+                        no state changes - the send ends later as an ADeliver
      ATdBegin s         Teardown: tearingDown := true, Persister.Flush
      ATdWaited s        WaitPendingWritesContext returned (done or timed out), deferredAckClosed := true
      ATdCancel s        waitDeliveryDrain returned (drained or timed out), stopStream()
@@ -50,7 +53,8 @@ Inductive action :=
 | ATdBegin (s : conn)
 | ATdWaited (s : conn)
 | ATdCancel (s : conn)
-| ATdDown (s : conn) (fast : bool).
+| ATdDown (s : conn) (fast : bool)
+| AHold (s : conn).
 
 (* model parameters: the observable cfg plus the persister's bundle threshold *)
 Record mcfg := mkM { m_cfg : cfg; m_thr : nat }.
@@ -215,6 +219,15 @@ Definition step (m : mcfg) (y : sys) (a : action) : option sys :=
                         (emit (ETdCancel s :: ETdEnd s fast :: tx_event started) (out y)))
         end
       else None
+  | AHold s =>
+      let x := Src y s in
+      match dq x with
+      | [] => None
+      | (n, _) :: _ =>
+          if (s <? nsrc c) && plug x && streamOpen x
+          then Some (mkSys (Pst y) (Src y) (emit [ESendHeld s n] (out y)))
+          else None
+      end
   end.
 
 (* an action that is not enabled in the current state does not happen *)
